@@ -185,6 +185,7 @@ theorem step_keeps_orig (valid : Str → Bool) (c : Ctx) (e : Ev) :
   | headers l => simp only [step]; split <;> simp [applyX]
   | finish => simp [step, unapplyX]
   | close => simp [step, unapplyX]
+  | finishRaises => simp [step]
 
 /-- `no_leak` for keep-alive request sequences: every request on a connection observes exactly what it would observe
     as the only request of a fresh connection, and the context ends restored — for every sequence of header blocks. -/
@@ -247,6 +248,11 @@ theorem leak_without_finish :
   refine ⟨fun _ => true, Ctx.init [57] cHttp [], [C43.ofAscii "X-Real-Ip: 1"], [], ?_⟩
   decide
 
+/-- a delegate that raises in `finish` skips the restore: the context stays rewritten (the real connection is closed
+    right after — `_server_request_loop` — so there is no later request; the tie checks that none is served) -/
+theorem finish_raises_keeps_rewrite (valid : Str → Bool) (c : Ctx) :
+    (step valid c .finishRaises).1 = c := rfl
+
 /-! ### "a numeric IP address" (`Spec.numericIP`, written from inet(3)/RFC 4291/RFC 4007 — not from `is_valid_ip`) -/
 
 /-- contract of the platform resolver as seen through `valid`: what it accepts is numeric-host text -/
@@ -278,6 +284,7 @@ theorem step_numeric (valid : Str → Bool) (hc : ResolverNumeric valid) (c : Ct
         rw [← hreq.1]; exact key
   | finish => exact ⟨Or.inl (by simp [step, unapplyX]), by intro ip pr h; simp [step] at h⟩
   | close => exact ⟨Or.inl (by simp [step, unapplyX]), by intro ip pr h; simp [step] at h⟩
+  | finishRaises => exact ⟨hi, by intro ip pr h; simp [step] at h⟩
 
 /-- `remote_ip_numeric_trace`: on EVERY event trace (well-formed or not — no reliance on C05) from a context that shows
     the socket address or a numeric address, every request object's `remote_ip` is the socket address or a numeric IP
